@@ -256,6 +256,13 @@ func (r *Route) weighTargets() {
 		} else {
 			t.Weight = dynamic
 		}
+		// huge or denormal fixed weights overflow the arithmetic
+		// above. Keep the result a share of the traffic.
+		if !(t.Weight >= 0) {
+			t.Weight = 0
+		} else if t.Weight > 1 {
+			t.Weight = 1
+		}
 	}
 
 	// distribute the targets on a ring suitable for weighted round-robin
@@ -296,6 +303,13 @@ func (r *Route) weighTargets() {
 		slots[i].i = i
 		slots[i].n = n
 		usedSlots += n
+	}
+
+	// no target got a share of the ring, e.g. since the sum of the
+	// weights overflowed: distribute the traffic evenly
+	if usedSlots <= 0 {
+		r.wTargets = r.Targets
+		return
 	}
 
 	sort.Sort(slots)
